@@ -117,6 +117,18 @@ CLAIMS = {
    "Fault enumeration. Application engine as the commands assemble it, with generated outcomes (incl. probes in flight at the cancel that then fail or report), 1..1000 workers, up to 3000 targets, slow consumer: the parent context is cancelled at an exact event (before start, k-th probe start, k-th record written, k-th error logged, inside an exit delay of 30 ms..10 min). "
    "Packet commands on the virtual wire: for one generated scenario SIGINT after EVERY frame k = 0..total and inside a 10-minute exit delay. Socks command against stalling servers. Oracle: the call returns within 30 s (goroutine dump otherwise), result stream closed, nothing written after the return (in-stream marker), complete JSON lines, process alive under -race.",
    "k is enumerated completely per scenario, scenarios are sampled; leaked goroutines that do not block the call are not judged", "C12"),
+ "C09": _c("E1-package-pbt",
+   "fault enumeration: scripted loopback TCP servers (all two-byte replies; every fault at every protocol step) against the real scanner; decision-table and deadline oracle",
+   "Fault enumeration. The real socks5.Scanner against scripted servers in 127.0.0.0/8: refuse, full accept queue (dial timeout), close/reset at once, replies whole or split into segments (pauses <= T/4) sent before or after reading the greeting, then stall / close / reset / flood; optional cancellation. "
+   "All two-byte replies (quick: both axes through 05 00 plus a sample; thorough: all 65536, exhaustive). Oracle: a record only if the first two bytes sent are 05 00, with the probed ip/port; demanded when delivery is certain; greeting seen = 05 01 00; elapsed <= connect + 3 x data timeout + 3 s; prompt end after cancel. "
+   "Command level: sx socks --timeout T ends within 4T + exit delay + 1 s against non-accepting / stalling servers.",
+   "loopback stands for the network; nothing is placed within a factor 4 of a deadline; upper bounds carry seconds of slack (jitter-gated at command level)", "C09"),
+ "C10": _c("E1-package-pbt",
+   "fault enumeration: socket-level scripted HTTP/HTTPS servers (status x framing x body kind x fault per request path) against the real scanners; reference = 'body is a JSON object' + deadlines",
+   "Fault enumeration. The real elastic and docker scanners over http and https against a scripted raw-socket server, one independent script per request path (/, /_aliases; /_ping, /info, /version): statuses, three framings, object / array / scalar / truncated / HTML / empty / 1 MiB / endless bodies, stalls before headers or mid-body, close, reset. "
+   "Oracle: elastic record <=> GET / delivered a complete object; docker record <=> /info 2xx with a complete object and negotiation not hung; host, port, scheme, info/indexes/version equal what was served; secondary failures never suppress; no record => error; elapsed <= timeouts + 3 s. Commands: --proto/--timeout wiring. "
+   "One known finding (docker, null body) is excluded by construction and re-confirmed on every run.",
+   "loopback stands for the network; redirects/1xx/204/304 not generated; encoding/json defines 'object'", "C10"),
 }
 
 # properties not (yet) claimed
